@@ -829,6 +829,12 @@ func (t *ftr) ioExpr(e ast.Expr, hint *ty) (ex, bool) {
 					}
 					return ex{"(" + x.s + ").isNil", tBool, x.p}, true
 				}
+				if x.t.k == "funcptr" {
+					if e.Op == token.NEQ {
+						return ex{"(" + x.s + ").isSome", tBool, x.p}, true
+					}
+					return ex{"(" + x.s + ").isNone", tBool, x.p}, true
+				}
 				t.fail("comparison of %s with nil", x.t.lean())
 				return ex{}, true
 			}
@@ -1068,6 +1074,9 @@ func (t *ftr) ioExpr(e ast.Expr, hint *ty) (ex, bool) {
 		if id, m, c, ok := recvCall(e); ok {
 			if vt := t.lookup(id.Name); vt != nil {
 				switch {
+				case vt.k == "funcptr" && m == "Name" && len(c.Args) == 0:
+					// only reached after the nil check (a nil *Func would panic): the name
+					return ex{"(" + t.ln(id.Name) + ".getD [])", tText, false}, true
 				case vt.k == "dirent" && m == "IsDir" && len(c.Args) == 0:
 					return ex{t.ln(id.Name) + ".isDir", tBool, false}, true
 				case vt.k == "dirent" && m == "Name" && len(c.Args) == 0:
@@ -1136,6 +1145,8 @@ func (t *ftr) ioStmt(b *strings.Builder, ind string, st ast.Stmt, res *ty) bool 
 					t.define(b, ind, n.Name, ex{"false", tBool, false})
 				case goType(vs.Type) != nil && goType(vs.Type).k == "int":
 					t.define(b, ind, n.Name, ex{"(0 : Int)", tInt, false})
+				case t.src(vs.Type) == "*runtime.Func":
+					t.define(b, ind, n.Name, ex{"(none : Option (List UInt8))", tFuncP, false})
 				case goType(vs.Type) != nil && goType(vs.Type).k == "text":
 					t.define(b, ind, n.Name, ex{"([] : List UInt8)", tText, false})
 				default:
